@@ -71,7 +71,7 @@ def axis_pg(rng, cls):
 
 def gen_cases(ctx):
     rng = ctx.rng
-    n = ctx.n(4000, 70000)
+    n = ctx.n(12000, 120000)
     for i in range(n):
         cls = STEREO[i % 2]
         k = (i // 2) % 10
